@@ -62,6 +62,23 @@ M={
  'C18-c':('C18','the forced continuation runs the hook on one spawnable and spawns a fresh one.','spawn hook + try_restart_with_signal + the child outliving the grace period','C18 (C18/respawn/TryGracefulRestartBeyondGrace/...)'),
  'C19-c':('C19','from_windows_str strips an optional SIG prefix: SIGSTOP parses as ForceStop.','the SIG-prefixed spelling of STOP through FromStr','C19 (C19/spelling/SIGSTOP/prefixed)'),
  'C20-c':('C20','has_file means "not a directory": FIFOs, sockets and symlinks named like a file marker count.','a marker name on a node that is neither a regular file nor a directory','C20 (C20/origins/spurious/not-a-marker/...-as-fifo ...) after odd node kinds were added'),
+ 'C01-d':('C01','throttle_collect does not push an event equal to the last collected one ("coalescing").','two events with equal tags and metadata in a row in one window','C01 (C01/accepted-event-lost/NTwin) after equal-valued events were added to the alphabet'),
+ 'C02-d':('C02','remaining window computed via Instant::checked_add(...).unwrap_or_default(): overflow means zero wait.','a throttle above ~i64::MAX seconds (Duration::MAX)','C02 (lower bound, model) after never-ending-window scenarios were added'),
+ 'C03-d':('C03','match_path checks the character after the trie key, indexing chars with a byte length.','a directory with a multi-byte name on the way to an ignore file','C03 (.../alternate-fixture) after the alternate fixture was added'),
+ 'C04-d':('C04','force_stopped flag set by signal(ForceStop), cleared only by a start that finds the job running.','start, signal(KILL), start, start','C04 (C04/spawn-after-unreaped-drop/after-Start) after length-4 forceful scripts joined the quick tier'),
+ 'C05-d':('C05','restart mode with --stop-timeout 0 sends signal(ForceStop); start() instead of restart_with_signal.','-r with a stop timeout of exactly zero and a change mid-run','C05 (C05/restart/no-run-after-last-change, wrong-stop-signal)'),
+ 'C06-d':('C06','Signal::Custom(n) passed to the child by raw number: unnamed numbers make the signal call fail before the timer is armed.','stop_with_signal(Custom(0 | negative | out of range))','C06 (C06/signal-mapping/...)'),
+ 'C07-d':('C07','zero-grace GracefulStop kills and reaps inline without raising the wait-for-end flags.','grace exactly zero with an outstanding to_wait ticket','C07 (C07/ticket-open/ToWait/child-ended/...)'),
+ 'C08-d':('C08','a graceful quit with zero grace takes the abort path.','quit_gracefully(_, ZERO) / CLI --stop-timeout 0 with a grouped command that forked','C08 (C08/cli-shutdown-wrong-signal/...)'),
+ 'C09-d':('C09','the already-expired fast path of recv always returns Stop.','try_restart_with_signal with zero grace on a child that survives the signal','C09 (not-a-model-trace/...)'),
+ 'C10-d':('C10','control queues bounded at 1024, try_send, full queue silently dropped.','more than 1024 controls pending at one priority','C10 (C10/control-never-ran, ...) after long-queue scenarios were added'),
+ 'C11-d':('C11','whitelist compared by OS string instead of by path.','the watched file named with a doubled separator, a dot component or a trailing separator','C11 (C11/whitelisted-file-rejected/other-spelling-of-the-path/...) after spelling probes were added'),
+ 'C12-d':('C12','IgnoreFilter::new joins same-scope file contents without a separator.','an ignore file without a final newline followed by another file of the same scope','C12 (C12/source-removed-by-unrelated-flag/...) after the fixture got files without a final newline; C03 (alternate fixture)'),
+ 'C13-d':('C13','"pathset unchanged" fast path compares lengths and membership.','a configured path list with duplicate entries of the same length as the registered set','C13 (C13/stale-path-still-registered) after duplicate entries joined the alphabet'),
+ 'C14-d':('C14','find_file requires meta.len() > 1.','a one-byte ignore file','C14 (C14/missed/...) after one-byte contents joined the grammar'),
+ 'C15-d':('C15','watch/unwatch failures of one pass are sent with reserve_many(n), which fails outright when n exceeds the queue capacity.','more failing paths in one change than error_channel_size','C15 (C15/main-ended-without-critical-error, C15/watcher-errors-missing)'),
+ 'C18-d':('C18','grouped tested before session in to_spawnable.','session: true together with grouped: true','C18 (C18/inspect/wrap/session)'),
+ 'C20-d':('C20','origins() canonicalises the start path.','a start path through a symlinked directory','C20 (C20/origins/.../symlinked-directory) after the symlinked-chain leg was added'),
 }
 for name,(prop,what,needs,caught) in M.items():
     d=f'/verif/seeded/{name}'
